@@ -302,12 +302,12 @@ theorem printSec_lines (useHex : Int → Bool) (s : Meta.Sec) (hn : ∀ n ∈ s.
   · simp only [Meta.printSec, List.filter_append, f1, f2]
     split <;> simp
 
-theorem mapM'_translate : ∀ (fs : List Func), (∀ f ∈ fs, Core3.wf f = true) → mapM' Core3.translate fs = some fs
+theorem mapM'_translate (ge : Core3.GEnv) : ∀ (fs : List Func), (∀ f ∈ fs, Core3.wfIn ge f = true) → mapM' (Core3.translateIn ge) fs = some fs
   | [], _ => rfl
   | f :: fs, h => by
     have hf := h f (by simp)
-    simp only [Core3.wf, Bool.and_eq_true] at hf
-    simp [mapM', translate_wf f hf.1 hf.2, mapM'_translate fs (fun x hx => h x (by simp [hx]))]
+    simp only [Core3.wfIn, Bool.and_eq_true] at hf
+    simp [mapM', translateIn_wf ge f hf.1 hf.2, mapM'_translate ge fs (fun x hx => h x (by simp [hx]))]
 
 /-- the metadata lines without the separating blank line translate to the section as well -/
 theorem meta_lines (useHex : Int → Bool) (s : Meta.Sec) (h : Meta.wf s = true) :
@@ -372,7 +372,7 @@ theorem printTok_names (useHex : Int → Bool) (m : Core2.Mod) (h : ∀ d ∈ m.
     split, read and translated back to the module itself -/
 theorem parse_print (useHex : Int → Bool) (m : Module)
     (h2 : Core2.WF ⟨m.typedefs, m.globals⟩) (hs : Core2.sortDefs m.typedefs = m.typedefs)
-    (h3 : ∀ f ∈ m.funcs, Core3.wf f = true) (hm : Meta.wf m.md = true) (hx : crossOK m = true) :
+    (h3 : ∀ f ∈ m.funcs, Core3.wfIn (genvOf m.globals m.funcs) f = true) (hm : Meta.wf m.md = true) (hx : crossOK m = true) :
     parse (printModule useHex m) = some m := by
   have hmn : ∀ n ∈ m.md.named, n.name ≠ [] := by
     have h' := hm
@@ -380,7 +380,7 @@ theorem parse_print (useHex : Int → Bool) (m : Module)
     intro n hn; exact (h'.1.1.1.1.2 n hn).1
   obtain ⟨hml, hmf⟩ := printSec_lines useHex m.md hmn
   have hsyn : ∀ f ∈ m.funcs, wfSyn f = true := fun f hf => by
-    have := h3 f hf; simp only [Core3.wf, Bool.and_eq_true] at this; exact this.1
+    have := h3 f hf; simp only [Core3.wfIn, Bool.and_eq_true] at this; exact this.1
   let groups : List (List Bytes × Top) := [
     (m.typedefs.map typedefLine, ⟨m.typedefs.map typedefTok, [], []⟩),
     (m.globals.map (globalLine useHex), ⟨m.globals.map (globalTok useHex), [], []⟩),
@@ -428,6 +428,6 @@ theorem parse_print (useHex : Int → Bool) (m : Module)
   simp only [crossOK, Bool.and_eq_true, Bool.not_eq_true'] at hx
   unfold parse
   rw [hread, hT]
-  simp only [Option.bind, translate, hmt, hc2, mapM'_translate m.funcs h3, hrl, htr, Core2.canon, hs, hx.1, Bool.false_eq_true, if_false, hx.2, if_true]
+  simp only [Option.bind, translate, hmt, hc2, Core2.canon, hs, mapM'_translate _ m.funcs h3, hrl, htr, Core2.canon, hs, hx.1, Bool.false_eq_true, if_false, hx.2, if_true]
 
 end Llir.Whole
